@@ -1,8 +1,8 @@
 SPECIFICATION MCSpec
-CONSTANTS P = 13
- NMin = 7
- NMax = 7
- TMax = 2
+CONSTANTS P = 11
+ NMin = 5
+ NMax = 5
+ TMax = 3
  KeyMode = "id"
  VerifyMode = "pairing"
 INVARIANTS TypeOK Algebra
